@@ -25,7 +25,7 @@ Seeds == ndJsonDeserialize("seeds.ndjson")
 Rep(n, v) == [i \in 1..n |-> v]
 CellClasses == {"pruned", "pruned_wronghash", "pruned_mask7", "pruned_short", "library", "library_short",
                 "exotic_ff", "exotic_flag", "merkle_hdr"}
-BagClasses  == {"roots0", "roots2", "roots2same", "mp_root", "mp_pair"}
+BagClasses  == {"same", "roots0", "roots2", "roots2same", "mp_root", "mp_pair"}     \* "same": the seed itself, unchanged
 
 TableOf(s) == FromJson(s.cells)
 
@@ -71,7 +71,7 @@ Mutant ==
   IF cls \in {"mp_root", "mp_pair"}
     THEN Write(Wrapped(T), IF cls = "mp_root" THEN <<1>> ELSE <<1, 1>>, Choice(s))
   ELSE IF cls \in BagClasses
-    THEN Write(T, CASE cls = "roots0" -> <<>> [] cls = "roots2" -> <<1, 2>> [] OTHER -> <<1, 1>>, Choice(s))
+    THEN Write(T, CASE cls = "roots0" -> <<>> [] cls = "roots2" -> <<1, 2>> [] cls = "same" -> <<1>> [] OTHER -> <<1, 1>>, Choice(s))
     ELSE Write(Remask(Compact([T EXCEPT ![k] = NewCell(T, k, cls)])), <<1>>, Choice(s + k))
 
 Init == /\ s \in 1..Len(Seeds)
